@@ -128,7 +128,7 @@ pub open spec fn sp_end_depot_node(net: &Network, d: DepotIdx) -> NodeIdx { net.
 //@item solver/src/min_cost_flow_solver.rs struct MinCostFlowSolver : plain
 //@end
 
-//@skeleton solver/src/min_cost_flow_solver.rs MinCostFlowSolver::solve_for_vehicle_type : let trip_node 2; closure filter_map#0; stmt "match (pred_trip_node, trip_node)" = d5ce4f8688f2911e
+//@skeleton solver/src/min_cost_flow_solver.rs MinCostFlowSolver::solve_for_vehicle_type : let maximal_formation_count; let number_of_vehicles_required; let lower_bound 0; let connection_upper_bound; let capacity; let trip_node 2; closure filter_map#0; stmt "match (pred_trip_node, trip_node)" = 3d4c0f7daa87294d
 
 // ================================================================ 3) which node is decoded, and as what
 /// the flow-network node a node of the chronological enumeration is decoded under: a service trip and a maintenance
